@@ -139,10 +139,17 @@ func isASCII(s string) bool {
 	return true
 }
 
+type (
+	namedS string
+	namedB []byte
+)
+
 func typed(err error) bool {
 	var a *uu.ParseError[string]
 	var b *uu.ParseError[[]byte]
-	return errors.As(err, &a) || errors.As(err, &b)
+	var c *uu.ParseError[namedS]
+	var d *uu.ParseError[namedB]
+	return errors.As(err, &a) || errors.As(err, &b) || errors.As(err, &c) || errors.As(err, &d)
 }
 
 func judgeText(c Case, w *vkit.W) {
@@ -197,12 +204,18 @@ func judgeText(c Case, w *vkit.W) {
 	}
 	got, err := uu.DefaultParser(text, uu.Rule(c.Rule))
 	check("DefaultParser[string]", got, err)
-	got, err = uu.DefaultParser([]byte(text), uu.Rule(c.Rule))
+	got, err = uu.DefaultParser(w.Scratch(text), uu.Rule(c.Rule)) // a reused caller buffer
 	check("DefaultParser[[]byte]", got, err)
+	if v.ok || len(text) == 36 || len(text) == 45 {
+		got, err = uu.DefaultParser(namedS(text), uu.Rule(c.Rule))
+		check("DefaultParser[named string]", got, err)
+		got, err = uu.DefaultParser(namedB(w.Scratch(text)), uu.Rule(c.Rule))
+		check("DefaultParser[named []byte]", got, err)
+	}
 	if c.Rule == 0 {
 		keep := uu.ID{Higher: 1, Lower: 2}
 		u := keep
-		err := u.UnmarshalText([]byte(text))
+		err := u.UnmarshalText(w.Scratch(text))
 		if err != nil {
 			if u != keep {
 				w.Fail(c, "receiver-changed-on-error", fmt.Sprintf("UnmarshalText(%q): %v, receiver %v", text, err, u))
@@ -236,6 +249,16 @@ func judgeID(c Case, w *vkit.W) {
 		w.Fail(c, "formatter-error", err.Error())
 	}
 	out("MarshalText", string(mt), plain)
+	for i := range mt { // the caller owns the returned bytes
+		mt[i] = '#'
+	}
+	for i := range b {
+		b[i] = '#'
+	}
+	if mt2, err := id.MarshalText(); err != nil || string(mt2) != plain {
+		w.Fail(c, "result-storage-shared", fmt.Sprintf("MarshalText of {%#x,%#x} after the caller overwrote an earlier result = %q, %v", c.Hi, c.Lo, mt2, err))
+	}
+	out("String (after the caller overwrote earlier results)", id.String(), plain)
 	out("Sprintf(%s)", fmt.Sprintf("%s", id), plain)
 	out("Sprintf(%u)", fmt.Sprintf("%u", id), urn)
 	out("Sprintf(%v)", fmt.Sprintf("%v", id), plain)
